@@ -34,6 +34,7 @@ type replayCase struct {
 	Harness string             `json:"harness"`
 	Tier    string             `json:"tier"`
 	Tape    []interp.TapeEntry `json:"tape"`
+	Repeat  int                `json:"repeat"`
 }
 
 type replayResult struct {
@@ -187,7 +188,11 @@ func (rp *report) nativeReplay() {
 		refs := byRel[rel]
 		var cases []replayCase
 		for _, cr := range refs {
-			cases = append(cases, replayCase{ID: cr.id, Harness: shortName(cr.cex.Harness), Tier: rp.opts.Tier, Tape: cr.cex.Tape})
+			rc := replayCase{ID: cr.id, Harness: shortName(cr.cex.Harness), Tier: rp.opts.Tier, Tape: cr.cex.Tape}
+			if cr.kind == "violation" || cr.kind == "known" {
+				rc.Repeat = 32 // outcomes may depend on Go's randomised map iteration order
+			}
+			cases = append(cases, rc)
 		}
 		dir := filepath.Join(rp.outDir, "native", strings.ReplaceAll(rel, "/", "_"))
 		res, log, err := runNative(rp.overlay, rp.allHarness, rel, cases, dir)
@@ -608,7 +613,7 @@ func Replay(path string) int {
 	}
 	dir, _ := os.MkdirTemp("", "gosym-replay")
 	defer os.RemoveAll(dir)
-	res, log, err := runNative(overlay, all, rel, []replayCase{{ID: "r", Harness: shortName(c.Harness), Tier: c.Tier, Tape: c.Tape}}, dir)
+	res, log, err := runNative(overlay, all, rel, []replayCase{{ID: "r", Harness: shortName(c.Harness), Tier: c.Tier, Tape: c.Tape, Repeat: 32}}, dir)
 	if err != nil {
 		fmt.Fprintln(os.Stderr, err)
 		fmt.Fprintln(os.Stderr, tail(log, 40))
